@@ -21,7 +21,10 @@ GEN     Gen_Stream: the MC behaviours laid over the real sizes {12, 13, 255, 256
         deadline; a few with a real one; the fakes record every read deadline they are given: after the request is written it
         must not move later -- Stream.MaxDeadlineExtensions), Client.ExchangeContext on real loopback sockets, and ExchangeWithConn over a real socket
         of every transport KIND the spec names (Stream.KindRules): tcp, unix stream, the two wrapped in another conn type, udp,
-        unixgram, wrapped udp, unixpacket (both rules admitted); a kind the OS refuses is counted as skipped.
+        unixgram, wrapped udp, unixpacket (both rules admitted); a kind the OS refuses is counted as skipped.  "repoint":
+        one Conn value makes an exchange over one kind, is pointed at another (co.Conn = ...) and makes a second one: every
+        ordered pair of kinds; framing and rule of the second exchange are those of the second kind.  Datagram reads
+        (ReadMsgHeader / ReadMsg, several datagrams on one Conn) are held and compared only after the last read.
 TV      `exchange record`: N in {8, 64} concurrent clients against a real UDP loopback server (ReadFromSessionUDP + buffer
         pool), a real UDP server on a wildcard socket whose clients talk to 127.0.0.1/2/3 from unconnected sockets and log
         which address each reply came from ("udpmulti"), an in-memory PacketConn server (pool) and TCP servers (in-memory and loopback); the handler snapshots the
@@ -178,6 +181,7 @@ def run(ctx):
             lambda: gen_replay(ctx, binp, "shortw", 2, [ctx.seed % 2]),
             lambda: gen_replay(ctx, binp, "refuse"),
             lambda: gen_replay(ctx, binp, "id"),
+            lambda: gen_replay(ctx, binp, "repoint"),
             lambda: race_run(ctx),
         ]
         k = 0
@@ -196,6 +200,7 @@ def run(ctx):
             lambda: gen_replay(ctx, binp, "shortw", 2, range(2)),
             lambda: gen_replay(ctx, binp, "refuse"),
             lambda: gen_replay(ctx, binp, "id"),
+            lambda: gen_replay(ctx, binp, "repoint"),
             lambda: race_run(ctx),
         ]
         k = 0
